@@ -180,7 +180,8 @@ PROPS = {
 # Coverage floors (quick): a quarter of what the workload reaches on the unchanged tree; a run that
 # observes less is inconclusive. Thorough floors are five times the quick ones, except for counts
 # that do not grow with the number of cases.
-NOSCALE = {"compression_bombs", "matrix_objects", "families_closed", "miri_sessions"}
+NOSCALE = {"compression_bombs", "matrix_objects", "families_closed", "miri_sessions", "round_trips_at_the_size_limit",
+           "round_trips_of_highly_compressible_machines"}
 QUICK_FLOORS = {
     "C01": {
         "actions_returned": 600000,
@@ -404,7 +405,6 @@ QUICK_FLOORS = {
         "tunnel_sent_judged_during_blocking": 1000
     },
     "C19": {
-        "distinct_interleavings_per_shard": 20000,
         "events_simulated": 4000000,
         "filtered_runs_compared": 100000,
         "length_bounded_runs_compared": 60000,
@@ -428,7 +428,9 @@ QUICK_FLOORS = {
         "v1_strings_rejected": 20000,
         "round_trips_with_compressed_form_over_32KiB": 300,
         "round_trips_with_compressed_form_over_256KiB": 50,
-        "compression_bombs": 3
+        "compression_bombs": 3,
+        "round_trips_at_the_size_limit": 4,
+        "round_trips_of_highly_compressible_machines": 6
     },
     "C12": {
         "matrix_objects": 1000,
@@ -476,7 +478,7 @@ QUICK_FLOORS = {
         "result_ok": 10000,
         "result_start_framework": 100,
         "start_stop_allocation_balances_checked": 10000,
-        "miri_sessions": 16
+        "miri_sessions": 40
     }
 }
 
